@@ -70,6 +70,11 @@ def is_ptr(t):
     return bool(t) and t.get("k") == "ptr"
 
 
+def inout_ref(t):
+    """non-const lvalue reference"""
+    return bool(t) and t.get("k") == "ref" and bool(t.get("to")) and not t["to"].get("const")
+
+
 UNION_ARMS = {"big_buffer_ptr": "big", "small_buffer": "small"}
 
 # Preconditions of internal helpers (checked at every call site by check_preconditions):
@@ -283,6 +288,9 @@ class FnBounds(object):
             t0, t1 = facts.tyi(self.f, ps[i]["t"]), facts.tyi(self.f, ps[i + 1]["t"])
             if is_byteptr(t0) and is_int(t1) and (t1.get("w", 0) >= 16):
                 out[ps[i]["var"]] = ps[i + 1]["var"]
+            elif inout_ref(t0) and inout_ref(t1) and is_byteptr(t0["to"]) and is_int(t1["to"]) and t1["to"].get("w", 0) >= 16:
+                # (const uint8_t*& cursor, uint32_t& remaining): an in-out cursor pair of a parsing helper
+                out[ps[i]["var"]] = ps[i + 1]["var"]
         return out
 
     def initial(self):
@@ -296,6 +304,8 @@ class FnBounds(object):
                 t = t["to"]      # int& parameter: its current value is tracked like a local
             elif t and t.get("k") == "ref" and is_int(t.get("to")):
                 t = t["to"]
+            elif inout_ref(t) and is_byteptr(t.get("to")) and v in self.pairs:
+                t = t["to"]      # the cursor of an in-out cursor pair: tracked like a pointer local
             if is_int(t) or is_ptr(t):
                 a = ("p0", v)
                 st.sym[v] = atom(a)
@@ -464,13 +474,81 @@ class FnBounds(object):
         FnBounds.REF_CACHE[key] = res
         return res
 
+    CURSOR_CACHE = {}
+
+    def cursor_pairs(self, callee):
+        """[(i, j)]: parameters i (byte pointer&) and j (unsigned&) of `callee` form an in-out cursor pair that every
+        normal exit leaves inside the window it was given: cursor' >= cursor and cursor' + remaining' <= cursor + remaining"""
+        key = (self.db.key, callee)
+        if key in FnBounds.CURSOR_CACHE:
+            return FnBounds.CURSOR_CACHE[key]
+        FnBounds.CURSOR_CACHE[key] = []
+        g = self.db.fn(callee) if callee else None
+        res = []
+        if g is not None and g.get("cfg") and g.get("body") and self.depth < 2:
+            cand = []
+            ps = g["params"]
+            for i in range(len(ps) - 1):
+                t0, t1 = facts.tyi(g, ps[i]["t"]), facts.tyi(g, ps[i + 1]["t"])
+                if inout_ref(t0) and inout_ref(t1) and is_byteptr(t0["to"]) and is_int(t1["to"]) and t1["to"].get("w", 0) >= 16:
+                    cand.append((i, i + 1))
+            if cand:
+                try:
+                    b = FnBounds(self.db, g, depth=self.depth + 1).run()
+                    for (i, j) in cand:
+                        pv, lv = ps[i]["var"], ps[j]["var"]
+                        ok = bool(b.exit_states)
+                        for st in b.exit_states:
+                            P, N = st.sym.get(pv), st.sym.get(lv)
+                            if P is None or N is None:
+                                ok = False
+                                break
+                            D = P - atom(("p0", pv))
+                            if not b.prove(D, st, 4) or not b.prove(atom(("p0", lv)) - N - D, st, 4):
+                                ok = False
+                                break
+                        if ok:
+                            res.append((i, j))
+                except Exception:
+                    res = []
+        FnBounds.CURSOR_CACHE[key] = res
+        return res
+
+    def apply_cursor_pairs(self, n, args, st, pos):
+        """the caller's view of an in-out cursor pair after the call: the cursor moved forward by an unknown D >= 0 and the
+        remaining length shrank by at least D"""
+        done = set()
+        callee = n.get("callee")
+        if not callee or n.get("ext"):
+            return done
+        for (i, j) in self.cursor_pairs(callee):
+            if j >= len(args):
+                continue
+            a, l = strip(args[i]), strip(args[j])
+            if a["k"] != "DeclRefExpr" or l["k"] != "DeclRefExpr" or not a.get("var") or not l.get("var"):
+                continue
+            P, L = self.lin(a, st, pos), self.lin(l, st, pos)
+            if P is None or L is None:
+                continue
+            D = ("ld", str(n["id"]), "advanced")
+            R = ("ld", str(n["id"]), "remaining")
+            self.fresh.add(D)
+            self.fresh.add(R)
+            st.sym[a["var"]] = P + atom(D)
+            st.sym[l["var"]] = atom(R)
+            st.facts = frozenset(set(st.facts) | set([atom(D), atom(R), L - atom(D) - atom(R)]))
+            done.update((i, j))
+        return done
+
     def apply_ref_effects(self, n, args, st, pos):
         callee = n.get("callee")
         if not callee or n.get("ext"):
             return
+        handled = self.apply_cursor_pairs(n, args, st, pos)
         eff = self.ref_effects(callee)
         if not eff:
             return
+        eff = dict((i_, v_) for i_, v_ in eff.items() if i_ not in handled)
         g = self.db.fn(callee)
         argl = {}
         for j, pp in enumerate(g["params"]):
@@ -2215,7 +2293,8 @@ class FnBounds(object):
                             continue
                     nxt_is_len = nxt is not None and is_int(tn_)
                     if nxt_is_len and ptypes is not None and i + 1 < len(ptypes) and (ptypes[i + 1] or {}).get("k") == "ref" \
-                            and not ((ptypes[i + 1].get("to") or {}).get("const")):
+                            and not ((ptypes[i + 1].get("to") or {}).get("const")) and \
+                            (i, i + 1) not in (self.cursor_pairs(callee) if callee and not n.get("ext") else []):
                         nxt_is_len = False       # an output parameter, not a length
                     if nxt_is_len:
                         L = self.lin(nxt, st, pos)
